@@ -58,10 +58,11 @@ def run_history(ctx, rng, length, hid):
         sim = davsim.Sim(ctx)
     known = []
     reqs = []
+    pre = davsim.warmup(rng) if rng.random() < 0.6 else []
     try:
         for i in range(length):
             user = "u"
-            extra = rng.random() < 0.25
+            extra = rng.random() < 0.25 and not pre
             before_dump = sim.real_dump()
             before_disk = disk_snapshot(sim.app.folder)
             if extra:
@@ -97,7 +98,7 @@ def run_history(ctx, rng, length, hid):
                     # a success outside the vocabulary desynchronises model and implementation: end this history
                     return
                 continue
-            r = davsim.gen_request(rng, sim, known)
+            r = pre.pop(0) if pre else davsim.gen_request(rng, sim, known)
             reqs.append(r)
             obs, ans, diffs = sim.step(r, user)
             if "etag_raw" in obs:
